@@ -1012,12 +1012,20 @@ Fixpoint insert_all {A} (x : A) (l : list A) : list (list A) :=
 Fixpoint perms {A} (l : list A) : list (list A) :=
   match l with [] => [[]] | x :: t => flat_map (insert_all x) (perms t) end.
 Definition g_case := (list gfeat * list (list nat))%type.
-(* unit level: the list is the iteration order of the very set that was passed in; groups in dict order *)
+(* unit level: the list is the iteration order of the very set that was passed in; groups in dict order.
+   chk_group: the faithful model (dictionary keyed by the hash integer); chk_group_eq: grouping by equality of
+   (options, frameworks) = the specification = the repaired code.  Outside kf_hash_conflation the two coincide
+   (C15_grouping_by_equality_partial); inside, the observation must be one of the two. *)
 Definition chk_group (c : g_case) : bool := part_ordered (group_features (fst c)) (snd c).
+Definition chk_group_eq (c : g_case) : bool := part_ordered (group_features_eq (fst c)) (snd c).
 (* end to end: the set order inside the planner is not observable: some order must explain the calls *)
 Definition chk_e2e (c : g_case) : bool := existsb (fun p => part_unordered (group_features p) (snd c)) (perms (fst c)).
+Definition chk_e2e_eq (c : g_case) : bool := existsb (fun p => part_unordered (group_features_eq p) (snd c)) (perms (fst c)).
 Definition chk_not_ambiguous (c : g_case) : bool := negb (kf_ambiguous (map (item_of (fst c)) (fst c))).
+Definition chk_not_ambiguous_eq (c : g_case) : bool := negb (kf_ambiguous (map (item_of_eq (fst c)) (fst c))).
 Definition chk_not_conflated (c : g_case) : bool := negb (kf_hash_conflation (fst c)).
+Definition chk_not_canon (c : g_case) : bool := negb (kf_canon_conflation (fst c)).
+Definition chk_not_collision (c : g_case) : bool := negb (kf_hash_collision (fst c)).
 (* derived features: child options d_i merged into the (empty) options of the input features *)
 Definition empty_opts : ostate := {| og := []; oc := []; opk := [] |}.
 Definition d_case := (list ini_t * list (list (list (pykey * pyval) * list (pykey * pyval))))%type.
@@ -1033,8 +1041,61 @@ Definition chk_derived (c : d_case) : bool :=
   && forallb (fun call => match call with [] => false | gc :: t => forallb (fun gc' => py_eq (VDict (fst gc)) (VDict (fst gc'))) t end) calls.
 """
 
+BIG0, BIG1 = 2 ** 61 - 1, 2 ** 61          # sys.hash_info.modulus: hash(BIG0) = 0 = hash(0) = hash(""), hash(BIG1) = 1 = hash(True)
 GVALS: List[Any] = [1, True, 2, "x", None, "", 0, False, -1, -2, ["L", [1, 2]], ["T", [1, 2]], ["S", [1, 2]], ["S", [2, True]], ["D", [["k", 1]]],
-                    ["D", [["k", True]]], ["L", [1, ["D", [["q", ["S", [1]]]]]]]]
+                    ["D", [["k", True]]], ["L", [1, ["D", [["q", ["S", [1]]]]]]],
+                    # unequal values with one hash integer (and containers holding them)
+                    BIG0, BIG1, -BIG1, ["E", 0], "E0", ["E", 1], "E1", ["T", [-1]], ["T", [-2]], ["L", [1, -1]], ["L", [1, -2]],
+                    ["D", [["q", -1]]], ["D", [["q", -2]]], ["D", [["", 1]]], ["D", [[0, 1]]], ["S", [-1]], ["S", [-2]],
+                    ["L", [["T", [""]], 1]], ["L", [["T", [0]], 1]]]
+# atom -> unequal atoms with the same hash (CPython, 64 bit): see coq/Model/Grouping.v hnorm
+COLLIDE: List[Tuple[Any, List[Any]]] = [(-1, [-2]), (-2, [-1, -BIG1]), (-BIG1, [-2]), ("", [0, False, BIG0]), (0, ["", BIG0]), (False, ["", BIG0]),
+                                        (BIG0, [0, "", False]), (1, [BIG1]), (True, [BIG1]), (BIG1, [1, True]),
+                                        (["E", 0], ["E0"]), ("E0", [["E", 0]]), (["E", 1], ["E1"]), ("E1", [["E", 1]]), (["E", 2], ["E2"])]
+
+
+def collide_variant(rng: random.Random, d: Any, p: float = 0.7) -> Any:
+    """d with some atoms replaced by UNEQUAL atoms that have the same hash (-1 <-> -2, "" <-> 0, 0 <-> 2^61-1, Enum <-> name);
+    containers are kept, so the result has another canonical form with the same hash integer"""
+    for a, alts in COLLIDE:
+        if type(d) is type(a) and d == a:
+            return rng.choice(alts) if rng.random() < p else d
+    if d is None or isinstance(d, (bool, int, str)):
+        return d
+    tag, x = d
+    if tag in ("L", "T", "S", "F"):
+        y = [collide_variant(rng, e, p) for e in x]
+        if tag in ("S", "F"):
+            y = [e for k, e in enumerate(y) if is_hashable_desc(e) and not any(to_py(e) == to_py(f) for f in y[:k])]
+        return [tag, y]
+    if tag == "D":
+        return ["D", [[k, collide_variant(rng, v, p)] for k, v in x]]
+    return d
+
+
+def set_with_colliding_elements(d: Any) -> bool:
+    """a set / frozenset holding two different elements with the same hash (e.g. {True, 2**61}): the hash of such a frozenset
+    (XOR of the shuffled element hashes, which cancel) is outside the modelled fragment (Model/Grouping.v hnorm)"""
+    if d is None or isinstance(d, (bool, int, str)):
+        return False
+    tag, x = d
+    if tag in ("S", "F"):
+        try:
+            els = list(to_py([tag, x]))
+            if len({hash(e) for e in els}) < len(els):
+                return True
+        except TypeError:
+            pass
+    if tag in ("L", "T", "S", "F"):
+        return any(set_with_colliding_elements(e) for e in x)
+    if tag == "D":
+        return any(set_with_colliding_elements(v) for _, v in x)
+    return False
+
+
+def retag_variant(g: List[List[Any]]) -> List[List[Any]]:
+    """group options with every list value turned into a tuple and vice versa (unequal, same canonical form)"""
+    return [[k, [{"L": "T", "T": "L"}[v[0]], v[1]] if isinstance(v, list) and v[0] in ("L", "T") else v] for k, v in g]
 
 
 def gen_group_opts(rng: random.Random) -> List[List[Any]]:
@@ -1046,6 +1107,11 @@ def gen_gfeats(rng: random.Random, n: int, names: Optional[List[str]] = None, cf
                dts: Sequence[Any] = (None, None, 1, 3)) -> List[dict]:
     pool = [gen_group_opts(rng) for _ in range(rng.choice([1, 2, 2, 3]))]
     pool += [variant(rng, ["D", p])[1] for p in pool[:2]]
+    if rng.random() < 0.6:                       # the same options with colliding atoms swapped
+        pool += [collide_variant(rng, ["D", p])[1] for p in pool[:2]]
+    if rng.random() < 0.35:                      # the same options with list <-> tuple swapped (one canonical form)
+        pool += [retag_variant(p) for p in pool[:2]]
+    pool = [p for p in pool if not set_with_colliding_elements(["D", p])] or [[]]
     out = []
     for i in range(n):
         g = json.loads(json.dumps(rng.choice(pool)))
@@ -1088,28 +1154,51 @@ def py_same_class(a: Any, b: Any) -> bool:
     return hash(a.options) == hash(b.options) and a.compute_frameworks == b.compute_frameworks
 
 
+def py_canon(f: Any) -> Any:
+    from mloda.core.abstract_plugins.components.hashable_dict import _make_hashable
+    return _make_hashable(f.options.group)
+
+
 def py_conflation(feats: List[Any]) -> bool:
+    """unequal (options, frameworks) with the same hash integer: union of the two known-defect domains"""
     return any(py_same_class(a, b) and a.options.group != b.options.group for a, b in itertools.combinations(feats, 2))
 
 
-def py_ambiguous(feats: List[Any]) -> bool:
+def py_canon_conflation(feats: List[Any]) -> bool:
+    """domain of C15-grouping-conflates-list-tuple: unequal group options with == canonical forms (_make_hashable)"""
+    return any(a.compute_frameworks == b.compute_frameworks and a.options.group != b.options.group and py_canon(a) == py_canon(b)
+               for a, b in itertools.combinations(feats, 2))
+
+
+def py_collision(feats: List[Any]) -> bool:
+    """domain of C15-grouping-hash-collision: different canonical forms, the same hash integer"""
+    return any(py_same_class(a, b) and py_canon(a) != py_canon(b) for a, b in itertools.combinations(feats, 2))
+
+
+def py_ambiguous(feats: List[Any], same: Any = None) -> bool:
+    same = same or py_same_class
     for u in feats:
         if u.data_type is not None:
             continue
-        ts = [t for t in feats if t.data_type is not None and py_same_class(t, u)]
+        ts = [t for t in feats if t.data_type is not None and same(t, u)]
         if len({t.data_type for t in ts}) > 1:
             return True
     return False
 
 
+def py_same_eq(a: Any, b: Any) -> bool:
+    return bool(a.options.group == b.options.group and a.compute_frameworks == b.compute_frameworks)
+
+
+KF_CANON, KF_COLL = "C15-grouping-conflates-list-tuple", "C15-grouping-hash-collision"
+
+
 def check_grouping(rep: vlib.Reporter, rng: random.Random, n: int) -> bool:
     from mloda.core.prepare.execution_plan import ExecutionPlan
     found = False
-    terms, descs = [], []
-    st = {"features": {}, "groups": {}, "ambiguous_cases": 0, "conflation_cases": 0, "context_stripped_same": 0, "with_untyped_join": 0,
+    terms, descs, mism, pydom = [], [], [], []
+    st = {"features": {}, "groups": {}, "context_stripped_same": 0, "with_untyped_join": 0,
           "skipped_unhashable": 0, "pairs_checked_against_property_text": 0}
-    kf_hit = None
-    kf_hit2 = None
     while len(terms) < n:
         ds = gen_gfeats(rng, rng.randrange(1, 8))
         try:
@@ -1133,23 +1222,17 @@ def check_grouping(rep: vlib.Reporter, rng: random.Random, n: int) -> bool:
             found = True
         else:
             st["context_stripped_same"] += 1
-        # property text on the implementation: together iff (group options, framework, type) agree
-        amb = py_ambiguous(feats)
-        conf = py_conflation(feats)
-        st["ambiguous_cases"] += amb
-        st["conflation_cases"] += conf
+        # property text on the implementation: together iff (group options, framework, type) agree; every pair that does not is
+        # classified below, once Coq has said which model the observed partition follows
         gi = {i: k for k, g in enumerate(groups) for i in g}
+        bad_pairs = []
         for x, y in itertools.combinations(range(len(ds)), 2):
             st["pairs_checked_against_property_text"] += 1
             if (gi[x] == gi[y]) != py_agree(feats[x], feats[y]):
-                if conf:
-                    kf_hit2 = kf_hit2 or {"kind": "grouping", "feats": ds, "pair": [x, y], "groups": groups}
-                elif amb:
-                    kf_hit = kf_hit or {"kind": "grouping", "feats": ds, "pair": [x, y], "groups": groups}
-                else:
-                    report(rep, "agree", "agree:" + json.dumps(ds)[:300], f"features {x},{y}: grouped together = {gi[x] == gi[y]} but agreement of "
-                           f"(group options, framework, type) = {py_agree(feats[x], feats[y])}", {"kind": "grouping", "feats": ds})
-                    found = True
+                bad_pairs.append([x, y, gi[x] == gi[y]])
+        mism.append(bad_pairs)
+        pydom.append({"amb": py_ambiguous(feats), "amb_eq": py_ambiguous(feats, py_same_eq), "conf": py_conflation(feats),
+                      "canon": py_canon_conflation(feats), "coll": py_collision(feats)})
         st["features"][len(ds)] = st["features"].get(len(ds), 0) + 1
         st["groups"][len(groups)] = st["groups"].get(len(groups), 0) + 1
         if any(len(g) > 1 and any(ds[i]["dtype"] is None for i in g) and any(ds[i]["dtype"] is not None for i in g) for g in groups):
@@ -1157,39 +1240,86 @@ def check_grouping(rep: vlib.Reporter, rng: random.Random, n: int) -> bool:
         if len(groups) > 1 and any(len(g) > 1 for g in groups):
             rep.nontrivial(("grp", ds))
         terms.append(f"({cq_list(gfeat_term(d) for d in ordered_ds)}, {part_term(groups)})")
-        descs.append(ds)
-    bad, info = vlib.run_cases(P, "grouping", REQ_G, "chk_group", terms, extra_defs=EXTRA_G, case_type="g_case", shard=250)
-    amb_idx, _ = vlib.run_cases(P, "grouping_amb", REQ_G, "chk_not_ambiguous", terms, extra_defs=EXTRA_G, case_type="g_case", shard=250)
-    conf_idx, _ = vlib.run_cases(P, "grouping_conf", REQ_G, "chk_not_conflated", terms, extra_defs=EXTRA_G, case_type="g_case", shard=250)
+        descs.append({"feats": ds, "groups": groups})
+
+    def ev(name: str, chk: str) -> Tuple[set, dict]:
+        bad_, info_ = vlib.run_cases(P, name, REQ_G, chk, terms, extra_defs=EXTRA_G, case_type="g_case", shard=250)
+        return set(bad_), info_
+    bad_def, info = ev("grouping", "chk_group")                 # observed != faithful model (hash integers)
+    bad_eq, _ = ev("grouping_eq", "chk_group_eq")                # observed != grouping by equality
+    dom = {"amb": ev("grouping_amb", "chk_not_ambiguous")[0], "amb_eq": ev("grouping_amb_eq", "chk_not_ambiguous_eq")[0],
+           "conf": ev("grouping_conf", "chk_not_conflated")[0], "canon": ev("grouping_canon", "chk_not_canon")[0],
+           "coll": ev("grouping_coll", "chk_not_collision")[0]}
     rep.count(len(terms))
+    # the decidable domains, computed twice: on the real objects (==, hash(), _make_hashable) and in Coq (py_eq, canon, hnorm)
+    dom_diff = {k: sorted(dom[k] ^ {i for i, d in enumerate(pydom) if d[k]})[:5] for k in dom}
+    if any(dom_diff.values()) or dom["conf"] != (dom["canon"] | dom["coll"]):
+        i0 = next((v[0] for v in dom_diff.values() if v), 0)
+        rep.finding("kf-domain-mismatch", "known-finding domains (ambiguous / same canonical form / hash collision) classified differently on the "
+                    f"real objects and in Coq: case indices {dom_diff}", {"kind": "grouping", **descs[i0]})
+        found = True
+    hits: Dict[str, Any] = {}
+    outcome = {"outside_domains": 0, "in_domain_defect_present": 0, "in_domain_as_specified": 0, "in_domain_models_agree": 0}
+    nbad = 0
+    for i in range(len(terms)):
+        okd, oke = i not in bad_def, i not in bad_eq
+        in_dom = i in dom["conf"]
+        if (not in_dom and not (okd and oke)) or (in_dom and not (okd or oke)):
+            nbad += 1
+            report(rep, "grouping", "grouping:" + json.dumps(descs[i])[:300], "group_features_by_compute_framework_and_options differs from the model"
+                   + (" (inside the hash-conflation domain: neither the hash-keyed model nor grouping by equality)" if in_dom else ""),
+                   {"kind": "grouping", **descs[i]})
+            found = True
+            continue
+        defect_here = in_dom and okd and not oke
+        outcome["outside_domains" if not in_dom else "in_domain_defect_present" if defect_here else
+                "in_domain_as_specified" if (oke and not okd) else "in_domain_models_agree"] += 1
+        if defect_here:
+            for k, key in (("canon", KF_CANON), ("coll", KF_COLL)):
+                other = "coll" if k == "canon" else "canon"
+                if i in dom[k] and i not in dom[other]:
+                    hits.setdefault(key, {"kind": "grouping", **descs[i], "pairs_against_property_text": mism[i]})
+        if mism[i] and not defect_here:
+            if (okd and i in dom["amb"]) or (oke and i in dom["amb_eq"]):
+                hits.setdefault("C15-untyped-joins-first-typed-group", {"kind": "grouping", **descs[i], "pairs_against_property_text": mism[i]})
+            else:
+                x, y, tog = mism[i][0]
+                report(rep, "agree", "agree:" + json.dumps(descs[i])[:300], f"features {x},{y}: grouped together = {tog} but agreement of "
+                       f"(group options, framework, type) = {not tog}", {"kind": "grouping", **descs[i]})
+                found = True
     rep.add("grouping", {**info, "cases": len(terms), "features_per_case": dict(sorted(st["features"].items())),
-                         "groups_per_case": dict(sorted(st["groups"].items())), "ambiguous_domain_python": st["ambiguous_cases"],
-                         "ambiguous_domain_coq": len(amb_idx), "conflation_domain_python": st["conflation_cases"],
-                         "conflation_domain_coq": len(conf_idx),
+                         "groups_per_case": dict(sorted(st["groups"].items())),
+                         "domains": {k: len(v) for k, v in dom.items()}, "domain_outcomes": outcome,
+                         "cases_with_pairs_against_property_text": sum(1 for m in mism if m),
                          "pairs_checked_against_property_text": st["pairs_checked_against_property_text"], "untyped_joined_typed_group": st["with_untyped_join"],
                          "context_stripped_same_partition": st["context_stripped_same"], "skipped_unhashable": st["skipped_unhashable"],
-                         "disagreements": len(bad)})
-    if len(amb_idx) != st["ambiguous_cases"] or len(conf_idx) != st["conflation_cases"]:
-        rep.finding("kf-domain-mismatch", f"known-finding domains classified differently by Python ({st['ambiguous_cases']}, {st['conflation_cases']}) "
-                    f"and Coq ({len(amb_idx)}, {len(conf_idx)})", {"kind": "grouping"}, found_input=False)
-        found = True
-    for i in bad[:5]:
-        rep.finding("grouping:" + json.dumps(descs[i])[:300], "group_features_by_compute_framework_and_options differs from the model",
-                    {"kind": "grouping", "feats": descs[i]})
-        found = True
+                         "disagreements": nbad})
     w = grouping_witnesses()
     rep.coverage["grouping"]["known_finding_witnesses"] = w
-    if kf_hit or w["untyped"]["defect_present"]:
-        rep.finding("C15-untyped-joins-first-typed-group", "untyped feature compatible with two typed groups", kf_hit or w["untyped"])
-    if kf_hit2 or w["conflation"]["defect_present"]:
-        rep.finding("C15-grouping-conflates-list-tuple", "features with unequal group options (same canonical form) computed together",
-                    kf_hit2 or w["conflation"])
-    rep.sample({"kind": "grouping", "feats": descs[0]})
+    if w["collision"]["hash_model_wrong"]:
+        rep.finding("collision-model", "pairs the model says have one hash integer do not on this interpreter (or are equal): "
+                    f"{w['collision']['hash_model_wrong']}", w["collision"])
+        found = True
+    if "C15-untyped-joins-first-typed-group" in hits or w["untyped"]["defect_present"]:
+        rep.finding("C15-untyped-joins-first-typed-group", "untyped feature compatible with two typed groups",
+                    hits.get("C15-untyped-joins-first-typed-group") or w["untyped"])
+    if KF_CANON in hits or w["conflation"]["defect_present"]:
+        rep.finding(KF_CANON, "features with unequal group options (same canonical form) computed together", hits.get(KF_CANON) or w["conflation"])
+    if KF_COLL in hits or w["collision"]["defect_present"]:
+        rep.finding(KF_COLL, "features with unequal group options (different canonical forms, same hash integer) computed together",
+                    hits.get(KF_COLL) or w["collision"])
+    rep.sample({"kind": "grouping", **descs[0]})
     return found
 
 
+# the pairs of coq/Proofs/GroupingP.v collide_pairs (+ -1 / -2), as harness descriptors
+COLLIDE_WITNESSES: List[Tuple[Any, Any]] = [(-1, -2), ("", 0), ("", False), (BIG0, 0), (BIG1, True), (-BIG1, -2), (["E", 0], "E0"),
+                                            (["T", [-1]], ["T", [-2]]), (["L", [1, -1]], ["L", [1, -2]]), (["D", [["q", -1]]], ["D", [["q", -2]]]),
+                                            (["D", [["", 1]]], ["D", [[0, 1]]]), (["S", [-1]], ["S", [-2]])]
+
+
 def grouping_witnesses() -> dict:
-    """the two committed witnesses, replayed on the implementation (a list is passed to fix the iteration order)"""
+    """the committed witnesses, replayed on the implementation (a list is passed to fix the iteration order)"""
     from mloda.core.prepare.execution_plan import ExecutionPlan
     from mloda.core.abstract_plugins.components.feature import Feature
     from mloda.core.abstract_plugins.components.options import Options
@@ -1202,12 +1332,20 @@ def grouping_witnesses() -> dict:
     a = Feature.int64_of("f0", Options(group={"c": [1, 2]}))
     b = Feature.int64_of("f2", Options(group={"c": (1, 2)}))
     o3 = names([a, b])
-    c, d = Feature.int64_of("f3", Options(group={"c": ""})), Feature.int64_of("f4", Options(group={"c": 0}))
-    o4 = names([c, d])
+    d1, d2 = Feature.int64_of("f3", Options(group={"c": {"k": 1}})), Feature.int64_of("f4", Options(group={"c": (("k", 1),)}))
+    o4 = names([d1, d2])
+    coll, wrong = [], []
+    for x, y in COLLIDE_WITNESSES:
+        fx, fy = Feature.int64_of("f5", Options(group={"c": to_py(x)})), Feature.int64_of("f6", Options(group={"c": to_py(y)}))
+        if fx.options == fy.options or hash(fx.options) != hash(fy.options) or py_canon(fx) == py_canon(fy):
+            wrong.append([x, y])
+        coll.append({"pair": [x, y], "together": len(names([fx, fy])) == 1})
     return {"untyped": {"kind": "kf_untyped", "order_t1_t2_u": o1, "order_t2_t1_u": o2, "defect_present": o1 != o2},
             "conflation": {"kind": "kf_conflation", "options_equal": bool(a.options == b.options), "groups": o3,
-                           "empty_string_vs_zero_groups": o4,
-                           "defect_present": ((not a.options == b.options) and len(o3) == 1) or len(o4) == 1}}
+                           "dict_vs_tuple_of_pairs_groups": o4,
+                           "defect_present": ((not a.options == b.options) and len(o3) == 1) or ((not d1.options == d2.options) and len(o4) == 1)},
+            "collision": {"kind": "kf_collision", "pairs": coll, "hash_model_wrong": wrong,
+                          "defect_present": any(c["together"] for c in coll)}}
 
 
 # ---- end to end
@@ -1262,13 +1400,19 @@ def run_request(feats: List[Any]) -> Tuple[Optional[str], List[Any]]:
         return f"{type(e).__name__}:{tag} {str(e)[:160]}", list(_calls)
 
 
+def kf_keys_of(feats: List[Any]) -> List[str]:
+    """which of the two conflation findings a request belongs to (only when it is in exactly one of the two domains)"""
+    c, h = py_canon_conflation(feats), py_collision(feats)
+    return [KF_CANON] if (c and not h) else [KF_COLL] if (h and not c) else []
+
+
 def check_e2e(rep: vlib.Reporter, rng: random.Random, n: int) -> bool:
     from mloda.user import Feature, Options
     found = False
     terms, descs, dterms, ddescs, gterms2 = [], [], [], [], []
     st = {"runs": 0, "exceptions": {}, "root_calls": {}, "context_only_requests": 0, "context_only_single_call": 0,
-          "derived_runs": 0, "derived_root_calls": {}}
-    kf_conf: Optional[dict] = None
+          "derived_runs": 0, "derived_root_calls": {}, "conflation_domain_runs": 0, "conflation_domain_run_failures": 0}
+    kf_conf: Dict[str, dict] = {}
     # A: direct requests on the root group (group / context / declared type variations)
     for _ in range(n):
         k = rng.randrange(1, 6)
@@ -1283,12 +1427,15 @@ def check_e2e(rep: vlib.Reporter, rng: random.Random, n: int) -> bool:
             continue
         exc, calls = run_request(feats)
         st["runs"] += 1
+        st["conflation_domain_runs"] += py_conflation(feats)
         if exc:
             st["exceptions"][exc[:60]] = st["exceptions"].get(exc[:60], 0) + 1
             if "[Features have different options]" in exc and py_conflation(feats):
-                # known-finding domain: unequal options with one canonical form were put into one step, which then fails its
-                # own equal-options validation
-                kf_conf = kf_conf or {"kind": "e2e", "feats": ds, "exception": exc[:120]}
+                # known-finding domains: unequal options with one hash integer were put into one step, which then fails its
+                # own equal-options validation (defect present; after a repair this does not happen any more)
+                st["conflation_domain_run_failures"] += 1
+                for key in kf_keys_of(feats):
+                    kf_conf.setdefault(key, {"kind": "e2e", "feats": ds, "exception": exc[:120]})
                 continue
             report(rep, "e2e-exc", "e2e-exc:" + json.dumps(ds)[:300], "run_all raised on a request over one root group: " + exc, {"kind": "e2e", "feats": ds})
             found = True
@@ -1324,10 +1471,13 @@ def check_e2e(rep: vlib.Reporter, rng: random.Random, n: int) -> bool:
             continue
         exc, calls = run_request(feats)
         st["derived_runs"] += 1
+        st["conflation_domain_runs"] += py_conflation(feats)
         if exc:
             st["exceptions"][exc[:60]] = st["exceptions"].get(exc[:60], 0) + 1
             if "[Features have different options]" in exc and py_conflation(feats):
-                kf_conf = kf_conf or {"kind": "e2e_derived", "inis": inis, "exception": exc[:120]}
+                st["conflation_domain_run_failures"] += 1
+                for key in kf_keys_of(feats):
+                    kf_conf.setdefault(key, {"kind": "e2e_derived", "inis": inis, "exception": exc[:120]})
                 continue
             report(rep, "e2e-derived-exc", "e2e-derived-exc:" + json.dumps(inis)[:300], "run_all raised on derived features: " + exc, {"kind": "e2e_derived", "inis": inis})
             found = True
@@ -1344,28 +1494,72 @@ def check_e2e(rep: vlib.Reporter, rng: random.Random, n: int) -> bool:
         gterms2.append(f"({cq_list(gfeat_term(d) for d in gds)}, {part_term([sorted(byname[nm] for nm, _, _ in c[1]) for c in calls if c[0] == 'D'])})")
         if len(rcalls) > 1:
             rep.nontrivial(("e2ed", inis))
-    bad, info = vlib.run_cases(P, "e2e", REQ_G, "chk_e2e", terms, extra_defs=EXTRA_G, case_type="g_case", shard=100)
+
+    def ev(name: str, chk: str, tt: List[str]) -> Tuple[set, dict]:
+        bad_, info_ = vlib.run_cases(P, name, REQ_G, chk, tt, extra_defs=EXTRA_G, case_type="g_case", shard=100)
+        return set(bad_), info_
+
+    def judge(name: str, tt: List[str]) -> Tuple[List[int], dict, Dict[str, int]]:
+        """calls explained by the faithful model; inside the hash-conflation domain also by grouping by equality (repaired)"""
+        bad_def, info_ = ev(name, "chk_e2e", tt)
+        bad_eq, _ = ev(name + "_eq", "chk_e2e_eq", tt)
+        conf, _ = ev(name + "_conf", "chk_not_conflated", tt)
+        out = {"outside_domains": 0, "in_domain_defect_present": 0, "in_domain_as_specified": 0, "in_domain_models_agree": 0}
+        bad_ = []
+        for i in range(len(tt)):
+            okd, oke = i not in bad_def, i not in bad_eq
+            if (i not in conf and not (okd and oke)) or (i in conf and not (okd or oke)):
+                bad_.append(i)
+            else:
+                out["outside_domains" if i not in conf else "in_domain_defect_present" if not oke else
+                    "in_domain_as_specified" if not okd else "in_domain_models_agree"] += 1
+        return bad_, info_, out
+    bad, info, out_a = judge("e2e", terms)
     bad_d, _ = vlib.run_cases(P, "e2e_derived", REQ_G, "chk_derived", dterms, extra_defs=EXTRA_G, case_type="d_case", shard=100)
-    bad_g, _ = vlib.run_cases(P, "e2e_derived_groups", REQ_G, "chk_e2e", gterms2, extra_defs=EXTRA_G, case_type="g_case", shard=100)
+    bad_g, _, out_b = judge("e2e_derived_groups", gterms2)
     rep.count(len(terms) + len(dterms))
     rep.coverage["traces_validated_against_impl"] = len(terms) + len(dterms)
     rep.add("e2e", {**info, **st, "root_calls": dict(sorted(st["root_calls"].items())),
                     "derived_root_calls": dict(sorted(st["derived_root_calls"].items())),
+                    "domain_outcomes_direct": out_a, "domain_outcomes_derived": out_b,
                     "disagreements": len(bad) + len(bad_d) + len(bad_g)})
     for i in bad[:5]:
         rep.finding("e2e:" + json.dumps(descs[i])[:300], "the calculation calls of run_all (number / composition) are not explained by the "
                     "grouping model for any set iteration order", {"kind": "e2e", "feats": descs[i]})
         found = True
-    for i in (bad_d + bad_g)[:5]:
+    for i in (list(bad_d) + bad_g)[:5]:
         rep.finding("e2e-derived:" + json.dumps(ddescs[i])[:300], "input features of derived features: merged options / number of root calls differ "
                     "from o_merge + grouping model", {"kind": "e2e_derived", "inis": ddescs[i]})
         found = True
-    if kf_conf:
-        rep.coverage["e2e"]["known_finding_conflation_run_failure"] = kf_conf
-        rep.finding("C15-grouping-conflates-list-tuple", "run_all fails with 'Features have different options'", kf_conf)
+    # the two committed end-to-end witnesses
+    w = e2e_witnesses()
+    rep.coverage["e2e"]["known_finding_witnesses"] = w
+    for key, wk in ((KF_CANON, "list_tuple"), (KF_COLL, "minus_one_minus_two")):
+        if not (w[wk]["defect_present"] or w[wk]["as_specified"]):
+            rep.finding("e2e-witness:" + wk, f"run_all on the committed witness neither shows the known defect nor two separate calls: {w[wk]}", w[wk])
+            found = True
+        if key in kf_conf or w[wk]["defect_present"]:
+            rep.coverage["e2e"].setdefault("known_finding_run_failures", {})[key] = kf_conf.get(key) or w[wk]
+            rep.finding(key, "run_all fails with 'Features have different options'", kf_conf.get(key) or w[wk])
     if descs:
         rep.sample({"kind": "e2e", "feats": descs[0]})
     return found
+
+
+def e2e_witnesses() -> dict:
+    """run_all on one root group with two requested columns whose group options are unequal but hash alike: with the
+    defect both are put into ONE calculation call (mixed options), which then raises 'Features have different options';
+    as specified they are two calls"""
+    out = {}
+    for name, (x, y) in (("list_tuple", (["L", [1, 2]], ["T", [1, 2]])), ("minus_one_minus_two", (-1, -2))):
+        ds = [{"id": 0, "name": "c0", "g": [["k", x]], "c": [], "cfw": None, "dtype": None},
+              {"id": 1, "name": "c1", "g": [["k", y]], "c": [], "cfw": None, "dtype": None}]
+        exc, calls = run_request([build_gfeat(d) for d in ds])
+        rc = [sorted(nm for nm, _, _ in c[1]) for c in calls if c[0] == "R"]
+        out[name] = {"kind": "e2e", "feats": ds, "exception": exc and exc[:120], "root_calls": rc,
+                     "defect_present": bool(exc and "[Features have different options]" in exc) or any(len(c) > 1 for c in rc),
+                     "as_specified": exc is None and sorted(rc) == [["c0"], ["c1"]]}
+    return out
 
 
 # ------------------------------------------------------------------------------------------------------------
@@ -1385,8 +1579,11 @@ def run(rep: vlib.Reporter, tier: str, seed: int) -> None:
         "hand-written models Model/Options.v (py_eq, canon = _make_hashable, Options operations, merge_options), Model/Identity.v "
         "(eq / hash keys of Feature, Link, Index, SingleFilter), Model/Grouping.v (group_features_by_compute_framework_and_options); "
         "tied by correspondence (T2) on the inputs listed under coverage",
-        "Python hash() of str / int / bool / None / tuple / frozenset / Enum respects == and does not collide on the different "
-        "canonical forms explored (grouping is by hash integers)",
+        "Python hash() of str / int / bool / None / tuple / frozenset / Enum respects ==; which DIFFERENT canonical forms get one hash "
+        "integer is modelled by Model/Grouping.v hnorm (int: sign * (|z| mod 2^61-1) with -1 -> -2; '' = 0; Enum member = its name; "
+        "tuple / frozenset elementwise) and otherwise assumed collision-free: non-empty str (SipHash, not computed), None, the "
+        "tuple / frozenset combiners.  Not used by any theorem; tested on every generated request (unit-level grouping tie and the "
+        "Python-vs-Coq comparison of the three domain predicates)",
         "value fragment: dict keys are atoms (str incl. str-Enum, int, bool, None, plain Enum member); no floats; opaque objects are "
         "Enum members (hashable) or identity-equal unhashable objects; Feature objects inside options only as child_options[in_features] "
         "(frozenset of Features or a single Feature, in group or context of the child options)",
@@ -1395,7 +1592,8 @@ def run(rep: vlib.Reporter, tier: str, seed: int) -> None:
     rep.add("rule", "ops: PRNG sequences of <= 12 calls on a real Options object over 3-6 colliding keys (values nested <= 2 levels), state "
                     "and exception compared after every call; values/identities: PRNG pairs where the second object is a re-written "
                     "(reordered dict/set, True for 1, list<->tuple) or slightly mutated copy of the first; grouping: 1-7 real Features over "
-                    "1-3 option classes x framework x declared type, iteration order read from the set; e2e: run_all on a generated root "
+                    "1-3 option classes (+ re-written copies, + copies with atoms swapped for UNEQUAL atoms of the same hash: -1/-2, ''/0/False/2^61-1, "
+                    "1/2^61, Enum member/its name, also inside tuples, lists, sets, nested dicts) x framework x declared type, iteration order read from the set; e2e: run_all on a generated root "
                     "group (<= 5 requested columns) and a derived group whose options are merged into its inputs. non-trivial = an ops "
                     "sequence with both succeeding and raising calls / an equal pair written differently / >1 group with a shared group / "
                     ">1 calculation call")
@@ -1459,6 +1657,6 @@ def replay(path: str) -> int:
         print("now:", infeatures_witness())
     elif kind == "kf_child_context":
         print("now:", child_context_witness())
-    elif kind in ("kf_untyped", "kf_conflation"):
-        print("now:", grouping_witnesses())
+    elif kind in ("kf_untyped", "kf_conflation", "kf_collision"):
+        print("now:", json.dumps(grouping_witnesses(), indent=1))
     return 0
